@@ -563,6 +563,8 @@ fn recase(s: &str, mode: usize) -> Option<String> {
     }
 }
 
+pub const SUFFIXES: &[&str] = &["'s", "'re", "'S", "'RE", "'Re", "'rE"];
+
 pub fn deviations(toks: &[Tk]) -> Vec<Dev> {
     let mut v = Vec::new();
     for (i, t) in toks.iter().enumerate() {
@@ -586,6 +588,12 @@ pub fn deviations(toks: &[Tk]) -> Vec<Dev> {
                 if i > 0 && toks[i - 1].kw.is_none() && !toks[i - 1].s.ends_with('"') || i > 0 && toks[i - 1].kw == Some("it") {
                     v.push(Dev::SuffixIs(i, 0));
                     v.push(Dev::SuffixIs(i, 1));
+                    // after a word the suffix is recognised in any letter case
+                    if toks[i - 1].s.chars().last().map_or(false, |c| c.is_alphabetic()) {
+                        for k in 2..SUFFIXES.len() {
+                            v.push(Dev::SuffixIs(i, k));
+                        }
+                    }
                 }
             }
         }
@@ -651,7 +659,7 @@ pub fn apply_dev(toks: &[Tk], d: &Dev) -> String {
             render(&t)
         }
         Dev::SuffixIs(i, k) => {
-            t[*i].s = ["'s", "'re"][*k].to_string();
+            t[*i].s = SUFFIXES[*k].to_string();
             t[*i].glue = true;
             render(&t)
         }
@@ -780,7 +788,7 @@ impl C02 {
                         apply_dev(&t1, d2)
                     }
                     Dev::SuffixIs(i, k) => {
-                        t1[*i].s = ["'s", "'re"][*k].to_string();
+                        t1[*i].s = SUFFIXES[*k].to_string();
                         t1[*i].glue = true;
                         apply_dev(&t1, d2)
                     }
